@@ -62,6 +62,8 @@ def cases(draw, tier):
             "type": draw(st.sampled_from([None, "OTU table"])),
             "form": draw(st.sampled_from(gen.FORMS)),
             "history": draw(ops.histories("read"))}
+    spec["ids_as"] = draw(st.sampled_from(["list"] * 4 + ["object_array",
+                                                          "tuple"]))
     axis = draw(ops.AX)
     a = np.asarray(spec["rows"])
     totals = a.sum(axis=0 if axis == "sample" else 1)
